@@ -109,8 +109,15 @@ def explore(chk):
             def scc(word_a, word_b):
                 return ("Scenarist_SCC V1.0\n\n00:00:01:00\t94ae 9420 9470 91ae %s 942f\n\n00:00:03:00\t942c\n\n00:00:04:00\t94ae 9420 9452 %s 91ae %s 942f\n\n00:00:06:00\t942c\n"
                         % (word_a, word_b, word_a))
-            docs += [("scc", scc("c1c2", "c4c5")), ("scc", scc("4f4b", "c1d0"))]
-            ops += [("read", len(docs) - 2, True), ("read", len(docs) - 1, rng.random() < 0.5), ("edit", "style_node_content"), ("read", len(docs) - 2, False)]
+            from pcv import sccgen as _sg
+            wd = lambda t: _sg.chars_to_words(t)[0]
+            docs += [("scc", scc(wd("AB"), wd("DE"))), ("scc", scc(wd("OK"), wd("no")))]
+            ops += [("read", len(docs) - 2, True), ("read", len(docs) - 1, rng.random() < 0.5), ("edit", "style_node_content", "last"), ("read", len(docs) - 2, False)]
+            if (h // 5) % 2:
+                # a document the reader rejects (a row of 34 characters), then a good one on the same reader object
+                bad = "Scenarist_SCC V1.0\n\n00:00:01:00\t94ae 9420 9440 " + " ".join(["c1c2"] * 17) + " 942f\n\n00:00:04:00\t942c\n"
+                docs.append(("scc", bad))
+                ops += [("read", len(docs) - 1, True), ("read", len(docs) - 3, True)]
         histories.append((docs, ops))
         for o in ops:
             if o[0] == "read":
@@ -152,7 +159,7 @@ def explore(chk):
                 if cs is not None:
                     results.append([di, cs, res[1]])
             elif o[0] == "edit" and results:
-                k = rng.randrange(len(results))
+                k = rng.randrange(len(results)) if len(o) < 3 else len(results) - 1
                 cs = results[k][1]
                 lang = cs.get_languages()[0]
                 caps = cs.get_captions(lang)
